@@ -31,6 +31,13 @@ pub fn gen(scen: &str, k: u64, seed: u64, tier: &str) -> Case {
             case.rbufs = random_rbufs(&mut r_ops);
             case.set("only", -1);
             case.set("max_points", if big { 8192 } else { 512 });
+            if case.fmt == "xz" && r_in.pct(35) {
+                // several concatenated streams with stream padding
+                case.set("streams", r_in.range(2, 3) as i64);
+                case.set("pad_seed", (r_in.next_u64() >> 1) as i64);
+                case.set("multi", 1);
+                case.opt.unit = None;
+            }
         }
         "io.read_err" => {
             let len = biased_len(&mut r_in, if big { 40000 } else { 6000 }, &[4096, 256]);
@@ -121,8 +128,12 @@ fn pick_points(total: usize, max_points: usize, seed: u64) -> Vec<usize> {
 }
 
 fn trunc(case: &Case, data: &[u8], ctx: &mut Ctx) -> Option<Violation> {
-    let stream = match prepare_stream(case, data) {
-        Ok(s) => s,
+    let mut spans: Vec<(usize, usize)> = Vec::new();
+    let stream = match prepare_file(case, data) {
+        Ok((s, sp)) => {
+            spans = sp;
+            s
+        }
         Err(_) => {
             // a writer that fails on a fault-free sink is C01/C02/C19's business
             ctx.metric("skipped_writer_failed", 1);
@@ -157,6 +168,11 @@ fn trunc(case: &Case, data: &[u8], ctx: &mut Ctx) -> Option<Violation> {
         }
         if bounds.contains(&t) {
             // a file that ends at a member boundary is a complete (shorter) LZIP file
+            continue;
+        }
+        if spans.len() > 1 && spans.iter().enumerate().any(|(i, sp)| t >= sp.1 && (i + 1 == spans.len() || t <= spans[i + 1].0)) {
+            // a multi-stream XZ file cut at a stream end or inside the stream padding consists
+            // of complete streams only (whether cut padding is an error is C12's question)
             continue;
         }
         ctx.evals += 1;
